@@ -75,6 +75,18 @@ def bigBitLen (x : Int) : Int := if x = 0 then 0 else (Nat.log2 x.natAbs + 1 : N
 def bigBit (x : Int) (i : Int) : Nat :=
   if 0 ≤ x then (x.toNat >>> i.toNat) % 2 else ((-x - 1).toNat >>> i.toNat + 1) % 2
 
+/-- `x.Cmp(y)`: -1 / 0 / +1 -/
+def bigCmp (x y : Int) : Int := if x < y then -1 else if x = y then 0 else 1
+/-- `z.Mod(x, m)`: the Euclidean remainder, `0 ≤ result < |m|` (m = 0 panics in Go: not modelled) -/
+def bigMod (x m : Int) : Int := x % m
+/-- `z.SetBytes(b)`: b read as a big-endian unsigned integer -/
+def bigSetBytes (b : Bytes) : Int := Int.ofNat (b.foldl (fun a x => a * 256 + x.toNat) 0)
+
+/-- the VALUE of the window `x[a:b]` when it is only read (bounds outside `0 ≤ a ≤ b ≤ cap x` panic in Go: not modelled) -/
+def sliceOf {α} (x : List α) (a b : Int) : List α := (x.drop a.toNat).take (b.toNat - a.toNat)
+/-- `make([]T, n)`: n zero values of T (a negative n panics in Go: not modelled) -/
+def makeSlice {α} [Inhabited α] (n : Int) : List α := List.replicate n.toNat default
+
 /-! ### map[string]V -/
 
 structure GoMap (V : Type) where
